@@ -6,20 +6,25 @@ require (
 	github.com/AdguardTeam/AdGuardDNS v0.0.0
 	github.com/AdguardTeam/AdGuardDNS/internal/dnsserver v0.0.0
 	github.com/AdguardTeam/golibs v0.30.4
+	github.com/AdguardTeam/urlfilter v0.20.0
+	github.com/ameshkov/dnscrypt/v2 v2.3.0
+	github.com/ameshkov/dnsstamps v1.0.3
 	github.com/anishathalye/porcupine v1.3.0
 	github.com/c2h5oh/datasize v0.0.0-20231215233829-aa82cc1e6500
 	github.com/miekg/dns v1.1.62
 	github.com/prometheus/client_golang v1.20.5
 	github.com/prometheus/client_model v0.6.1
+	github.com/quic-go/quic-go v0.48.2
+	golang.org/x/crypto v0.30.0
 	golang.org/x/net v0.32.0
+	google.golang.org/grpc v1.68.0
+	google.golang.org/protobuf v1.35.1
+	gopkg.in/yaml.v2 v2.4.0
 )
 
 require (
-	github.com/AdguardTeam/urlfilter v0.20.0 // indirect
 	github.com/aead/chacha20 v0.0.0-20180709150244-8b13a72661da // indirect
 	github.com/aead/poly1305 v0.0.0-20180717145839-3fee0db0b635 // indirect
-	github.com/ameshkov/dnscrypt/v2 v2.3.0 // indirect
-	github.com/ameshkov/dnsstamps v1.0.3 // indirect
 	github.com/axiomhq/hyperloglog v0.2.0 // indirect
 	github.com/beorn7/perks v1.0.1 // indirect
 	github.com/bluele/gcache v0.0.2 // indirect
@@ -31,6 +36,7 @@ require (
 	github.com/gomodule/redigo v1.9.2 // indirect
 	github.com/google/renameio/v2 v2.0.0 // indirect
 	github.com/klauspost/compress v1.17.11 // indirect
+	github.com/kylelemons/godebug v1.1.0 // indirect
 	github.com/munnerz/goautoneg v0.0.0-20191010083416-a7dc8b61c822 // indirect
 	github.com/oschwald/maxminddb-golang v1.13.1 // indirect
 	github.com/panjf2000/ants/v2 v2.10.0 // indirect
@@ -39,18 +45,13 @@ require (
 	github.com/prometheus/common v0.60.1 // indirect
 	github.com/prometheus/procfs v0.15.1 // indirect
 	github.com/quic-go/qpack v0.5.1 // indirect
-	github.com/quic-go/quic-go v0.48.2 // indirect
 	github.com/stretchr/testify v1.9.0 // indirect
-	golang.org/x/crypto v0.30.0 // indirect
 	golang.org/x/exp v0.0.0-20241204233417-43b7b7cde48d // indirect
 	golang.org/x/sync v0.10.0 // indirect
 	golang.org/x/sys v0.28.0 // indirect
 	golang.org/x/text v0.21.0 // indirect
 	golang.org/x/time v0.8.0 // indirect
 	google.golang.org/genproto/googleapis/rpc v0.0.0-20241104194629-dd2ea8efbc28 // indirect
-	google.golang.org/grpc v1.68.0 // indirect
-	google.golang.org/protobuf v1.35.1 // indirect
-	gopkg.in/yaml.v2 v2.4.0 // indirect
 	gopkg.in/yaml.v3 v3.0.1 // indirect
 )
 
